@@ -162,6 +162,19 @@ Proof.
   split; [exact Hn|]. intros s Hs. apply LR.Sound.In_states in Hs. lia.
 Qed.
 
+Lemma construction_state_count_refused : construction_state_count_refused_stmt.
+Proof.
+  intros g tp pp m m' fuel orders tos b Hwf Hcons Hle H'.
+  destruct (construction_narrow_same_or_refused g tp pp m m' fuel orders tos (Some b) Hwf Hcons Hle H') as [E|[E Hs]].
+  - pose proof (construction_sizes_fit g tp pp m fuel orders tos b Hwf Hcons E) as [Hn _].
+    split.
+    + intros Hge. exfalso. lia.
+    + intros _. split; [exact E|exact Hn].
+  - split.
+    + intros _. split; [exact E|exact Hs].
+    + intros Hne. exfalso. exact (Hne E).
+Qed.
+
 (* ---- (2) parse results ------------------------------------------------------------------------------ *)
 
 Lemma lr1_run_validated : lr1_run_validated_stmt.
